@@ -261,7 +261,7 @@ Section Runs.
   Definition clean_exchange := faulty_exchange answer root_answer kind_of (fun _ => None).
   Definition step_ok_b (f : fetch) (s : lstate) : bool :=
     let s' := fst (run_fetch unit clean_exchange f (s, tt)) in
-    negb (ls_hard s') && sub_b (ls_data s) (ls_data s') &&
+    negb (ls_hard s') && (match ls_errored s' with [] => true | _ => false end) && sub_b (ls_data s) (ls_data s') &&
     (match f_kind f with
      | FEntity => Nat.leb (length (select_items (ls_data s) (f_path f))) 1 && noarr_path (ls_data s) (f_path f) [[]]
      | _ => true
@@ -277,17 +277,20 @@ Section Runs.
          | t :: r => consistent_from t s && go r (fst (run_tree unit clean_exchange t (s, tt)))
          end) l s
     end.
-  (* after every fetch of the fault-free run: no merge failure, the previous data is contained in
+  (* after every fetch of the fault-free run: no merge failure, no fetch recorded as failed, the previous data is contained in
      the new data, an entity fetch had at most one item and traversed no array, every merged answer is contained at its target *)
   Definition consistent (t : ftree) : bool := consistent_from t init_state.
 End Runs.
 
-(* fault kinds after which the loader always reports an error (the property's list, with the
-   `_entities` count faults only for batch fetches: see errors_nonempty_refuted) *)
+(* fault kinds after which the loader always reports an error: the property's whole list -- transport
+   error, non-2xx with empty / non-JSON / errors-only body, empty body, non-JSON (also `NaN` as a
+   body or inside data), truncated, errors without data, `data: null`, and a wrong `_entities`
+   count for entity and batch fetches.  (Before the repairs the count faults were silent for
+   single-entity fetches and NaN inside data was accepted: ModelPreFix.v, c07_*_refuted.) *)
 Definition loud (fk : fkind) (k : fault) : bool :=
   match k with
   | FtTransport | FtStatusEmpty | FtStatusText | FtStatusErrors | FtEmpty | FtNonJSON | FtTruncated | FtNaNBody
-  | FtErrorsNoData | FtErrorsNullData | FtNullData => true
-  | FtCountLess | FtCountMore => match fk with FBatch => true | _ => false end
+  | FtErrorsNoData | FtErrorsNullData | FtNullData | FtNaNData => true
+  | FtCountLess | FtCountMore => match fk with FSingle => false | _ => true end
   | _ => false
   end.
